@@ -22,7 +22,7 @@ race=""; grep -q 'go test -race\|requires -race\|-race' "$IN/NOTES.md" 2>/dev/nu
 (cd "$M/with" && go test $race -vet=off -count=1 -run "^$tname" "./$dir/" >"$M/demo_with.log" 2>&1); dw=$?
 (cd "$M/without" && go test $race -vet=off -count=1 -run "^$tname" "./$dir/" >"$M/demo_without.log" 2>&1); dwo=$?
 rm -f "$M/with/$dir/zz_demo_test.go"
-out="$(VERIF_REPO="$M/with" VERIF_BUDGET_S="${VERIF_BUDGET_S:-120}" "$V/run.sh" "$P" "$TIER" 2>&1)"; code=$?
+out="$(VERIF_REPO="$M/with" VERIF_BUDGET_S="${VERIF_BUDGET_S:-120}" "$V/run.sh" "$CHK" "$TIER" 2>&1)"; code=$?
 viol="$(echo "$out" | grep -m1 '^minimised' | cut -c1-300)"; [ -n "$viol" ] || viol="$(echo "$out" | grep -m1 'violation\|VIOLATION\|returned' | cut -c1-300)"
 echo "$P-$X: baseline=$base demo_with_exit=$dw demo_without_exit=$dwo check_exit=$code tier=$TIER :: $viol"
 if [ "$base" = pass ] && [ $dw -ne 0 ] && [ $dwo -eq 0 ]; then
